@@ -1857,6 +1857,61 @@ func Harness_C06_acked() {
 	VerifCover("done")
 }
 
+// Harness_C06_openfault: an operation that meets one failing open (too many open files) at any point fails or succeeds as a whole: reopening shows the state before or the state after, and the state after once the operation reported success.
+// bounds: one handle on a stack of 2 tables; operation Add, a two-table Addition (name checking off and on), or CompactAll; the k-th open of a file (k = 1..10) by the operation fails once; the handle is closed, then a fresh handle reads
+// assumes: the only I/O fault is the one failing open (injected by the harness; the properties otherwise exclude I/O faults)
+// covers: done, failed
+func Harness_C06_openfault() {
+	cfg := stackCfg(0)
+	cfg.SkipNameCheck = VerifChoose(2) == 1
+	dir := VerifTempDir()
+	const n = 2
+	seedStack(dir, cfg, n)
+	st := mustOpen(dir, cfg, "open")
+	if st == nil {
+		return
+	}
+	op := VerifChoose(3)
+	VerifFaultOpen(VerifIntRange(1, 10))
+	var err error
+	switch op {
+	case 0:
+		err = addTxn(st, 7, true)
+	case 1:
+		err = twoTableTxn(st, "p7", "q7")
+	case 2:
+		err = st.CompactAll(nil)
+	}
+	VerifFaultOpen(0)
+	st.Close()
+	if err != nil {
+		VerifCover("failed")
+	}
+	fin, ferr := NewStack(dir, cfg)
+	VerifAssert(ferr == nil, "reopen-after-fault")
+	if ferr != nil {
+		return
+	}
+	got := snapshot(fin, "after-fault")
+	for i := 0; i < n; i++ {
+		v, ok := got.refs["p"+string([]byte{'0' + byte(i)})]
+		VerifAssert(ok && v == byte(i), "committed-ref-lost")
+	}
+	_, has := got.refs["p7"]
+	if op == 1 {
+		_, hasQ := got.refs["q7"]
+		VerifAssert(has == hasQ, "partially-applied-transaction")
+	}
+	if op != 2 {
+		if err == nil {
+			VerifAssert(has, "acknowledged-transaction-lost")
+		}
+	} else {
+		VerifAssert(!has, "phantom-update")
+	}
+	VerifCover("done")
+}
+
 // stackUniverse builds a stack of k tables through the real API; table t holds ref "a" as {absent,value,deletion} and ref "b" as {absent,value}, a reflog entry for a@t+1 or a reflog deletion of a@t (choices), plus ref "z" in the last table.
 func stackUniverse(st *Stack, k int) {
 	hs := hsOf(st.cfg)
